@@ -106,7 +106,7 @@ def eval_parse(case):
 CODES = ['0', '1', '2', '3', '4', '7', '9', '21', '22', '23', '24', '31', '34', '39', '41', '49', '53', '55', '56', '99', '10', '11',
          '38;5;200', '38;2;1;2;3', '48;5;7', '48;2;0;255;9', '58;5;1', '58;2;4;5;6', '59', '91', '101', '01', '004', '0031',
          '107', '100', '97', '90', '30', '37', '40', '47', '20', '12', '26', '50', '51', '52', '54', '6', '8', '28', '38;5;38', '48;2;48;2;58']
-ODD = ['', '38', '38;5', '38;2;1;2', '48;7', '300', '38;5;256', '1:2', '?1', ' 1', '1 ', '58']
+ODD = ['', '38', '38;5', '38;2;1;2', '48;7', '300', '38;5;256', '1:2', '?1', ' 1', '1 ', '58', '\u00b2', '\u2460', '-1', '+4', '-0', '3\u00b3', '99999999999999999999']
 
 
 def strat_tokens():
@@ -121,7 +121,7 @@ def strat_tokens():
 
 def strat_free():
     alpha = ['\x1b[', '\x1b[', '\x1b[', '\x1b', '[', '0', '1', '2', '3', '4', '5', '8', ';', ';', ';', 'm', 'm', 'm', 'm', 'A', 'H', 'x', 'é', 'a', 'b',
-             '38;5;', '48;2;1;2;', '58;5;9', '22', '39', '31', '1;', ';4', ':', '?', ' ']
+             '38;5;', '48;2;1;2;', '58;5;9', '22', '39', '31', '1;', ';4', ':', '?', ' ', '-', '+', '\u00b2', '\u0663']
     return st.lists(st.sampled_from(alpha), max_size=30).map(lambda l: {'s': ''.join(l)})
 
 
